@@ -633,6 +633,16 @@ func (idx *Index) update(key []byte, expected *types.Block, location types.Block
 
 // Remove removes a key from the index.
 func (idx *Index) Remove(key []byte) (bool, error) {
+	return idx.remove(key, nil)
+}
+
+// RemoveIfBlock removes a key only if the index currently stores location for
+// it. It is used to drop an unusable entry without removing a newer one.
+func (idx *Index) RemoveIfBlock(key []byte, location types.Block) (bool, error) {
+	return idx.remove(key, &location)
+}
+
+func (idx *Index) remove(key []byte, expected *types.Block) (bool, error) {
 	// Get record list and bucket index
 	bucket, err := idx.getBucketIndex(key)
 	if err != nil {
@@ -662,6 +672,10 @@ func (idx *Index) Remove(key []byte) (bool, error) {
 	r := records.GetRecord(indexKey)
 	if r == nil {
 		// The record does not exist. Nothing to remove.
+		return false, nil
+	}
+	if expected != nil && r.Block != *expected {
+		// The index has moved on to another location for this key.
 		return false, nil
 	}
 
